@@ -65,11 +65,11 @@ CHECK_DEADLOCK FALSE
 '''
 
 TIER = {
-    'quick': dict(mc=[(6, 2, ['v0', 'rec256', 'rec257', 'p10k+1', 'lk100'])],
-                  gen_sp=[s for s in ALL_SP if s != 'mb6'], nscen=330, nbig=6, mutants=[]),
+    'quick': dict(mc=[(6, 2, ['rec256', 'rec257', 'p10k+1', 'lk100'])], workers=4,
+                  gen_sp=[s for s in ALL_SP if s != 'mb6'], nscen=200, nbig=4, mutants=[]),
     'thorough': dict(mc=[(8, 2, ['v0', 'rec256', 'rec257', 'p10k', 'p10k+1', 'big', 'lk100']),
                          (6, 3, ['rec256', 'rec257', 'p10k+1'])],
-                     gen_sp=ALL_SP, nscen=None, nbig=None, mutants=MUTANTS + POLICY_MUTANTS),
+                     workers=V.NCPU, gen_sp=ALL_SP, nscen=None, nbig=None, mutants=MUTANTS + POLICY_MUTANTS),
 }
 
 
@@ -86,7 +86,8 @@ def run_mc(tier, work, log):
     runs = []
     st = tr = 0
     for i, (maxops, maxsets, sps) in enumerate(TIER[tier]['mc']):
-        r = V.tlc_run('MC_Compress', MC_CFG % ('', maxops, maxsets, q(sps)), os.path.join(work, 'mc%d' % i), timeout=900)
+        r = V.tlc_run('MC_Compress', MC_CFG % ('', maxops, maxsets, q(sps)), os.path.join(work, 'mc%d' % i), timeout=900,
+                      workers=TIER[tier]['workers'])
         runs.append({'module': 'MC_Compress', 'constants': {'MaxOps': maxops, 'MaxSets': maxsets, 'SPFilter': sps},
                      'distinct': r['distinct'], 'generated': r['states'], 'depth': r['depth'], 'wall_s': round(r['wall'], 1),
                      'violated': r['violated'], 'error': r['error'], 'timeout': r['timeout']})
@@ -208,6 +209,8 @@ def normalize(events):
     out = []
     for e in events:
         a, n = e['a'], e['n']
+        if e.get('harness_timeout'):
+            raise V.Inconclusive('harness timed out waiting for the store to open (machine overloaded?): %s' % e.get('err'))
         if a == 'Reset':
             out.append({'a': 'Reset', 'n': n, 'sid': e['sid']})
         elif a == 'CSet':
@@ -299,11 +302,9 @@ def binding_selftest(per, badsids, work, log):
         raise V.Inconclusive('binding self-test: validation run failed: %s' % r.get('tlc_error'))
     got = [b[2] for b in r['bad']]
     missing = [w for w in want if not any(g.startswith(w) for g in got)]
-    r0 = tlc_validate(base, os.path.join(work, 'selftest0'))
-    if missing or r0['bad']:
-        raise V.Inconclusive('binding self-test failed: corrupted fields not rejected: %s (got %s; clean copy: %s)' % (
-            missing, got, r0['bad']))
-    log('binding self-test: %d corrupted observations of scenario %s rejected (%s), clean copy accepted' % (
+    if missing:
+        raise V.Inconclusive('binding self-test failed: corrupted fields not rejected: %s (got %s)' % (missing, got))
+    log('binding self-test: %d corrupted observations of scenario %s rejected (%s); its clean copy was accepted by the main validation' % (
         len(want), pick, ', '.join(sorted(set(got)))))
     return {'scenario': pick, 'rejected': sorted(set(got))}
 
